@@ -1613,3 +1613,37 @@ func checkRuneIndexBounds(w *World, r *Report) {
 	}
 	r.Counts["non-constant indexes into []rune(s)"] = n
 }
+
+// checkFieldPathsTolerateNil — R05.18: a field path is followed with FieldByIndexErr.  An index
+// path taken from a reflect.StructField (FieldByName, VisibleFields, Type.Field) can lead through
+// an embedded *pointer* to a struct; reflect.Value.FieldByIndex panics when that pointer is nil,
+// FieldByIndexErr reports it.  On render paths every FieldByIndex call whose index is not a
+// constant literal is therefore a violation: context data with a nil embedded pointer is ordinary.
+func checkFieldPathsTolerateNil(w *World, r *Report) {
+	reach := w.renderReachable()
+	n := 0
+	for _, fn := range w.pkgFuncs() {
+		if !reach[fn] {
+			continue
+		}
+		instrsOf(fn, func(in ssa.Instruction) {
+			c, ok := in.(*ssa.Call)
+			if !ok {
+				return
+			}
+			g := c.Call.StaticCallee()
+			if g == nil {
+				return
+			}
+			switch g.String() {
+			case "(reflect.Value).FieldByIndexErr":
+				n++
+				r.ok("R05.18", ssaName(fn), "field path followed with FieldByIndexErr", w.posOf(in.Pos()), "a nil embedded pointer is reported, not dereferenced", false)
+			case "(reflect.Value).FieldByIndex":
+				n++
+				r.bad("R05.18", ssaName(fn), "field path followed with FieldByIndex", w.posOf(in.Pos()), "FieldByIndex panics (\"indirection through nil pointer to embedded struct\") when the path crosses an embedded pointer that is nil; a struct with an unset embedded pointer in the context makes the render panic instead of yielding an empty value or an error")
+			}
+		})
+	}
+	r.floor("field-path accesses on render paths", n, 1)
+}
